@@ -247,31 +247,70 @@ theorem pgc_add {dt : Int} {e : SEvent} {rest : List SEvent} (s s' : SimS) (h : 
     exact PG.step s s' (h.2 hpos) (by rw [hg]; exact TRel.refl _) hn (by rw [hl]) m1 m2
       (by rw [hfu, hns]; exact fun _ h' => h') (by rw [hid]; exact Nat.le_refl _) ha hj
 
+/-- The time of the event at the root of the queue. -/
+def RootA (T : Option Int) (s : SimS) : Prop := (s.queue[0]?).map (·.ev.time) = T
+
+/-- While the new events (all stamped `n'`) are queued: the root is the old root or one of them. -/
+def RootC (n' : Int) (T : Option Int) (rest : List SEvent) (s : SimS) : Prop :=
+  (∀ e ∈ rest, e.ev.time = n') ∧ ∀ h1, s.queue[0]? = some h1 → some h1.ev.time = T ∨ h1.ev.time = n'
+
+theorem evtimes_snoc {n' : Int} {evs : List SEvent} {e : SEvent} (h : ∀ e' ∈ evs, e'.ev.time = n') (he : e.ev.time = n') :
+    ∀ e' ∈ evs ++ [e], e'.ev.time = n' := by
+  intro e' he'
+  rcases List.mem_append.mp he' with h1 | h1
+  · exact h e' h1
+  · rw [List.mem_singleton.mp h1]; exact he
+
+theorem rootc_init {n' : Int} {T : Option Int} {evs : List SEvent} {s s' : SimS} (h : RootA T s)
+    (hev : ∀ e ∈ evs, e.ev.time = n') (hq : s'.queue = s.queue) : RootC n' T evs s' := by
+  refine ⟨hev, fun h1 hh => Or.inl ?_⟩
+  rw [hq] at hh
+  unfold RootA at h
+  rw [← h, hh]; rfl
+
+theorem rootc_add {n' : Int} {T : Option Int} {e : SEvent} {rest : List SEvent} {s s' : SimS}
+    (h : RootC n' T (e :: rest) s) (hq : s'.queue = Heap.heappush SEvent.lt s.queue e) : RootC n' T rest s' := by
+  refine ⟨fun e' he' => h.1 e' (List.mem_cons_of_mem _ he'), ?_⟩
+  intro h1 hh
+  rw [hq] at hh
+  rcases heappush_root _ _ _ hh with h2 | h2
+  · exact h.2 h1 h2
+  · right; rw [h2]; exact h.1 e (List.mem_cons_self ..)
+
 set_option maxHeartbeats 1600000 in
-/-- **`__step(dt)`.** -/
-theorem step_p (n dt : Int) :
-    ⦃fun s => ⌜PG none [] s ∧ s.now = n⌝⦄ step dt
-    ⦃post⟨fun _ s' => ⌜PGC dt [] s' ∧ s'.now = n + dt⌝, fun _ _ => ⌜True⌝⟩⦄ := by
+/-- **`__step(dt)`.** `T` is the time of the event at the root of the queue (if any): afterwards
+the root is that event or a TASK_FINISHED event due at the new clock value. -/
+theorem step_p (n dt : Int) (T : Option Int) :
+    ⦃fun s => ⌜(PG none [] s ∧ s.now = n) ∧ RootA T s⌝⦄ step dt
+    ⦃post⟨fun _ s' => ⌜((PGC dt [] s' ∧ s'.now = n + dt) ∧ 0 ≤ dt) ∧
+        ∀ h1, s'.queue[0]? = some h1 → some h1.ev.time = T ∨ h1.ev.time = n + dt⌝, fun _ _ => ⌜True⌝⟩⦄ := by
   rmvcgen [step, getPool, setPool, getTask, getGraph, taskCall, setGraph, raiseTask, mkEvent, uniqueName, advanceClock, addEvent]
   case inv1 =>
-    exact post⟨fun p s => ⌜PGS (n + dt) p.2 [] s ∧ s.now = n⌝, fun _ _ => ⌜True⌝⟩
+    exact post⟨fun p s => ⌜(PGS (n + dt) p.2 [] s ∧ s.now = n) ∧ RootA T s⌝, fun _ _ => ⌜True⌝⟩
   case inv2 =>
-    exact post⟨fun p s => ⌜PGS (n + dt) p.2 [] s ∧ s.now = n⌝, fun _ _ => ⌜True⌝⟩
+    exact post⟨fun p s => ⌜(PGS (n + dt) p.2 [] s ∧ s.now = n) ∧ RootA T s⌝, fun _ _ => ⌜True⌝⟩
   case inv3 =>
-    exact post⟨fun p s => ⌜PGS (n + dt) p.2 [] s ∧ s.now = n⌝, fun _ _ => ⌜True⌝⟩
+    exact post⟨fun p s => ⌜(PGS (n + dt) p.2 [] s ∧ s.now = n) ∧ RootA T s⌝, fun _ _ => ⌜True⌝⟩
   case inv4 =>
-    exact post⟨fun p s => ⌜PGS (n + dt) p.1.suffix p.2 s ∧ s.now = n⌝, fun _ _ => ⌜True⌝⟩
+    exact post⟨fun p s => ⌜(PGS (n + dt) p.1.suffix p.2 s ∧ s.now = n) ∧ RootA T s ∧ ∀ e ∈ p.2, e.ev.time = n + dt⌝,
+      fun _ _ => ⌜True⌝⟩
   case inv5 =>
-    exact post⟨fun p s => ⌜PGC dt p.1.suffix s ∧ s.now = n + dt⌝, fun _ _ => ⌜True⌝⟩
+    exact post⟨fun p s => ⌜(PGC dt p.1.suffix s ∧ s.now = n + dt) ∧ RootC (n + dt) T p.1.suffix s⌝, fun _ _ => ⌜True⌝⟩
   all_goals first
     | pg_frame
-    | (rs_hyps h => exact ⟨pgs_init n dt _ h ‹_›, h.2⟩)
-    | (rs_hyps h => exact ⟨PGS.congr _ _ h.1 rfl rfl rfl rfl rfl rfl rfl rfl rfl, h.2⟩)
-    | (rs_hyps h => exact ⟨pgs_step _ _ _ _ _ _ _ _ _ h.1 (Or.inr rfl) ‹_› ‹_› rfl rfl rfl rfl rfl rfl rfl rfl rfl ‹_› ‹_›, h.2⟩)
-    | (rs_hyps h => exact ⟨pgs_step _ _ _ _ _ _ _ _ _ h.1 (Or.inl ⟨rfl, ‹¬ _ = true›⟩) ‹_› ‹_› rfl rfl rfl rfl rfl rfl rfl rfl rfl ‹_› ‹_›, h.2⟩)
-    | (rs_hyps h => exact ⟨pgs_mk _ _ _ h.1 rfl rfl (by rs_hyps h0 => exact congrArg (· + dt) h0.2) rfl rfl rfl rfl rfl rfl rfl rfl rfl rfl, h.2⟩)
-    | (rs_hyps h => exact ⟨pgc_add _ _ h.1 rfl rfl rfl rfl rfl rfl rfl rfl rfl, h.2⟩)
-    | (rs_hyps h => exact ⟨pgs_clock _ _ h.1 ‹_› (by rw [h.2]) rfl rfl rfl rfl rfl rfl rfl rfl rfl, congrArg (· + dt) h.2⟩)
-
+    | (rs_hyps h => exact ⟨⟨pgs_init n dt _ h.1 ‹_›, h.1.2⟩, h.2⟩)
+    | (rs_hyps h => exact ⟨h.1, h.2, fun _ he => by cases he⟩)
+    | (rs_hyps h => exact ⟨h.1, h.2.1⟩)
+    | (rs_hyps h => exact ⟨h.1, h.2.2⟩)
+    | (rs_hyps h => exact ⟨⟨PGS.congr _ _ h.1.1 rfl rfl rfl rfl rfl rfl rfl rfl rfl, h.1.2⟩, h.2⟩)
+    | (rs_hyps h => exact ⟨⟨pgs_step _ _ _ _ _ _ _ _ _ h.1.1 (Or.inr rfl) ‹_› ‹_› rfl rfl rfl rfl rfl rfl rfl rfl rfl ‹_› ‹_›, h.1.2⟩, h.2⟩)
+    | (rs_hyps h => exact ⟨⟨pgs_step _ _ _ _ _ _ _ _ _ h.1.1 (Or.inl ⟨rfl, ‹¬ _ = true›⟩) ‹_› ‹_› rfl rfl rfl rfl rfl rfl rfl rfl rfl ‹_› ‹_›, h.1.2⟩, h.2⟩)
+    | (rs_hyps h => rs_hyps h0 =>
+        exact ⟨⟨pgs_mk _ _ _ h.1.1 rfl rfl (congrArg (fun z => z + dt) h0.1.2) rfl rfl rfl rfl rfl rfl rfl rfl rfl rfl, h.1.2⟩,
+          h.2.1, evtimes_snoc h.2.2 (congrArg (fun z => z + dt) h0.1.2)⟩)
+    | (rs_hyps h => exact ⟨⟨pgc_add _ _ h.1.1 rfl rfl rfl rfl rfl rfl rfl rfl rfl, h.1.2⟩, rootc_add h.2 rfl⟩)
+    | (rs_hyps h => exact ⟨⟨pgs_clock _ _ h.1.1 ‹_› (by rw [h.1.2]) rfl rfl rfl rfl rfl rfl rfl rfl rfl, congrArg (· + dt) h.1.2⟩,
+        rootc_init h.2.1 h.2.2 rfl⟩)
+    | (rs_hyps h => exact ⟨⟨h.1, Int.not_lt.mp ‹_›⟩, h.2.2⟩)
 
 end ErdosVerif.Model.Sim
